@@ -104,7 +104,9 @@ func c02Cases() []c02Case {
 		{"leafA-intB-rootA", func(a, b *gen.World) ([]byte, *gen.Key) { return mk(a.Leaf, b.PKI.Int, a.PKI.Root), a.Leaf.Key }, false},
 		{"leafB-intB-rootA", func(a, b *gen.World) ([]byte, *gen.Key) { return mk(b.Leaf, b.PKI.Int, a.PKI.Root), b.Leaf.Key }, false},
 		{"leafA-intA-rootB", func(a, b *gen.World) ([]byte, *gen.Key) { return mk(a.Leaf, a.PKI.Int, b.PKI.Root), a.Leaf.Key }, true},
-		{"tcb-signer-as-leaf", func(a, b *gen.World) ([]byte, *gen.Key) { return mk(a.PKI.TcbSig, a.PKI.Int, a.PKI.Root), a.PKI.TcbSig.Key }, false},
+		{"tcb-signer-as-leaf", func(a, b *gen.World) ([]byte, *gen.Key) {
+			return mk(a.PKI.TcbSig, a.PKI.Int, a.PKI.Root), a.PKI.TcbSig.Key
+		}, false},
 		{"tcb-signer-with-sgx-ext-as-leaf", func(a, b *gen.World) ([]byte, *gen.Key) {
 			c := gen.MakeCert(gen.CertSpec{CN: gen.CNTcbSigner, KeyLabel: "c02/tcbsgx", Serial: []byte{9, 9}, NotBefore: gen.Wide.NotBefore, NotAfter: gen.Wide.NotAfter,
 				CRLDP: []string{gen.RootCrlURL}, ExtraExt: a.Leaf.X.Extensions[len(a.Leaf.X.Extensions)-1:]}, a.PKI.Root)
@@ -139,12 +141,16 @@ func c02Cases() []c02Case {
 			return mk(c, a.PKI.Int, a.PKI.Root), c.Key
 		}, false},
 		{"two-blocks", func(a, b *gen.World) ([]byte, *gen.Key) { return mk(a.Leaf, a.PKI.Int), a.Leaf.Key }, false},
-		{"four-blocks", func(a, b *gen.World) ([]byte, *gen.Key) { return mk(a.Leaf, a.PKI.Int, a.PKI.Root, b.PKI.Root), a.Leaf.Key }, true},
+		{"four-blocks", func(a, b *gen.World) ([]byte, *gen.Key) {
+			return mk(a.Leaf, a.PKI.Int, a.PKI.Root, b.PKI.Root), a.Leaf.Key
+		}, true},
 		{"non-certificate-block", func(a, b *gen.World) ([]byte, *gen.Key) {
 			x := pem.EncodeToMemory(&pem.Block{Type: "X509 CRL", Bytes: a.PKI.Int.DER})
 			return append(append(append([]byte{}, a.Leaf.PEM...), x...), a.PKI.Root.PEM...), a.Leaf.Key
 		}, true},
-		{"trailing-garbage", func(a, b *gen.World) ([]byte, *gen.Key) { return append(mk(a.Leaf, a.PKI.Int, a.PKI.Root), 'x', 'y'), a.Leaf.Key }, true},
+		{"trailing-garbage", func(a, b *gen.World) ([]byte, *gen.Key) {
+			return append(mk(a.Leaf, a.PKI.Int, a.PKI.Root), 'x', 'y'), a.Leaf.Key
+		}, true},
 		{"leaf-without-sgx-extension", func(a, b *gen.World) ([]byte, *gen.Key) {
 			c := gen.MakeLeaf(a.PKI.Int, gen.LeafSpec{KeyLabel: "c02/nosgx"})
 			return mk(c, a.PKI.Int, a.PKI.Root), c.Key
@@ -160,6 +166,14 @@ func TestC02(t *testing.T) {
 		s := gen.NewStream(rapid.Uint64().Draw(t, "content"), "c02")
 		seeds := rapid.Permutation([]string{"pki-A", "pki-B", "pki-C", "pki-D"}).Draw(t, "seeds")
 		a, b := pkiWorld(t, seeds[0], s), pkiWorld(t, seeds[1], s)
+		cloneIntel := rapid.IntRange(0, 5).Draw(t, "cloneIntelIdentity") == 0
+		if cloneIntel {
+			// PKI A's root copies everything an attacker can copy from the embedded Intel root: subject and
+			// subject key identifier (but of course not the key)
+			er := embeddedIntelRoot(t)
+			a = gen.NewWorld(gen.NewPKI(gen.PKISpec{Seed: seeds[0] + "-intel-clone", RootSKI: er.SubjectKeyId, RootRawSubject: er.RawSubject, RootSerial: er.SerialNumber.Bytes()}), s)
+			gen.Class("pkiA-clones-intel-root-identity")
+		}
 		b.Sgx = a.Sgx
 		a.BuildLeaf()
 		b.BuildLeaf()
